@@ -6,14 +6,15 @@
 import PtaModel
 namespace Pta
 
-/-- a subject is dropped by the de-duplication iff it is a dotted sub module of another subject -/
+/-- a subject is dropped by the de-duplication iff it is a dotted sub module of another subject that is not a
+    'sub modules of' filter (repair of F-C12a) -/
 theorem contains_dedupSubjects (ss : List Filter) (f : Filter) (hf : f ∈ ss) :
-    (dedupSubjects ss).contains f = !(ss.any fun o => isStrictSub o.id f.id) := by
+    (dedupSubjects ss).contains f = !(ss.any fun o => !o.isParent && isStrictSub o.id f.id) := by
   rw [Bool.eq_iff_iff]
   simp only [List.contains_iff_mem, dedupSubjects, List.mem_filter, hf, true_and]
 
 theorem mem_dedupSubjects (ss : List Filter) (f : Filter) :
-    f ∈ dedupSubjects ss ↔ f ∈ ss ∧ ∀ o ∈ ss, isStrictSub o.id f.id = false := by
+    f ∈ dedupSubjects ss ↔ f ∈ ss ∧ ∀ o ∈ ss, (!o.isParent && isStrictSub o.id f.id) = false := by
   simp only [dedupSubjects, List.mem_filter, Bool.not_eq_true', List.any_eq_false, Bool.not_eq_true]
 
 theorem any_congr_mem {α : Type} (l : List α) (p q : α → Bool) (h : ∀ x ∈ l, p x = q x) : l.any p = l.any q := by
@@ -27,7 +28,7 @@ theorem mem_droppedSubjects (ss : List Filter) (f : Filter) :
   simp only [droppedSubjects, List.mem_filter, Bool.not_eq_true', List.contains_eq_mem, decide_eq_false_iff_not]
 
 theorem mem_droppedSubjects' (ss : List Filter) (f : Filter) :
-    f ∈ droppedSubjects ss ↔ f ∈ ss ∧ ∃ o ∈ ss, isStrictSub o.id f.id = true := by
+    f ∈ droppedSubjects ss ↔ f ∈ ss ∧ ∃ o ∈ ss, (!o.isParent && isStrictSub o.id f.id) = true := by
   rw [mem_droppedSubjects, mem_dedupSubjects]
   constructor
   · rintro ⟨hf, hn⟩
@@ -36,7 +37,7 @@ theorem mem_droppedSubjects' (ss : List Filter) (f : Filter) :
     intro hne
     apply hn
     refine ⟨hf, fun o ho => ?_⟩
-    cases h : isStrictSub o.id f.id
+    cases h : (!o.isParent && isStrictSub o.id f.id)
     · rfl
     · exact absurd ⟨o, ho, h⟩ hne
   · rintro ⟨hf, o, ho, h⟩
@@ -46,7 +47,7 @@ theorem mem_droppedSubjects' (ss : List Filter) (f : Filter) :
 
 /-- the dropped subjects as a filter on the identifiers -/
 theorem droppedSubjects_eq (ss : List Filter) :
-    droppedSubjects ss = ss.filter fun f => ss.any fun o => isStrictSub o.id f.id := by
+    droppedSubjects ss = ss.filter fun f => ss.any fun o => !o.isParent && isStrictSub o.id f.id := by
   unfold droppedSubjects
   apply List.filter_congr
   intro f hf
